@@ -165,7 +165,17 @@ impl Node {
         let (st2, clock2) = (Arc::clone(&st), Arc::clone(&clock));
         let task = tokio::spawn(async move {
             loop {
-                let Ok((mut sock, peer)) = listener.accept().await else { return };
+                let (mut sock, peer) = match listener.accept().await {
+                    Ok(x) => x,
+                    Err(_) => {
+                        tokio::time::sleep(Duration::from_millis(5)).await;
+                        continue;
+                    }
+                };
+                // close with RST: thousands of short-lived loopback connections per run must not pile up in
+                // TIME_WAIT (ephemeral ports would run out)
+                #[allow(deprecated)]
+                let _ = sock.set_linger(Some(Duration::ZERO));
                 let shard = shards.map(|n| (peer.port() % n, n, 12u8));
                 let kill = Arc::new(Notify::new());
                 let conn = {
@@ -299,6 +309,15 @@ impl Node {
         } else {
             Reply::Frame(RESP_ERROR, body_error(0x2200, "unknown statement", &[]))
         }
+    }
+
+    /// The node resets every connection (so that neither side lingers in TIME_WAIT) and stops accepting.
+    async fn close_all(&self) {
+        self.task.abort();
+        for c in self.st.lock().unwrap().conns.iter() {
+            c.kill.notify_one();
+        }
+        tokio::time::sleep(Duration::from_millis(2)).await;
     }
 
     fn tick(&self) -> u64 {
@@ -732,7 +751,7 @@ async fn wait_full(pool: &VerifPool, node: &Node, total: usize, limit_ms: u64) -
     }
 }
 
-async fn run_pool(w: &[&str], race: bool, ctx: &mut Ctx) -> Option<String> {
+async fn run_pool(w: &[&str], race: bool, progress: &Mutex<String>, ctx: &mut Ctx) -> Option<String> {
     let mode = w.get(1)?;
     let sharded = mode.starts_with('S');
     let n: u16 = mode.get(1..)?.parse().ok()?;
@@ -759,7 +778,8 @@ async fn run_pool(w: &[&str], race: bool, ctx: &mut Ctx) -> Option<String> {
     let mut tag = 0u64;
     let rule_stmt = |i: usize| names.get(i).map(|(n, cs)| spec_statement(n, *cs));
     let stmts: Vec<String> = names.iter().map(|(n, cs)| spec_statement(n, *cs)).collect();
-    for step in w.get(4)?.split(';').filter(|s| !s.is_empty()) {
+    for (step_no, step) in w.get(4)?.split(';').filter(|s| !s.is_empty()).enumerate() {
+        *progress.lock().unwrap() = format!("step {} `{}`", step_no, step);
         let (op, arg) = step.split_at(1);
         match op {
             "U" => {
@@ -799,10 +819,12 @@ async fn run_pool(w: &[&str], race: bool, ctx: &mut Ctx) -> Option<String> {
                         tokio::task::yield_now().await;
                     }
                 }
+                *progress.lock().unwrap() = format!("step {} `{}`: awaiting use_keyspace", step_no, step);
                 let r = call.await.ok()?;
                 let end = node.tick();
                 calls.push(UseCall { idx: i, start, end, ok: r.is_ok() });
-                for q in qs {
+                for (k, q) in qs.into_iter().enumerate() {
+                    *progress.lock().unwrap() = format!("step {} `{}`: use_keyspace returned {:?}, awaiting query {}", step_no, step, r, k);
                     let _ = q.await;
                 }
             }
@@ -898,6 +920,7 @@ async fn run_pool(w: &[&str], race: bool, ctx: &mut Ctx) -> Option<String> {
         }
     }
     judge(&node, &names, init, &calls, &submits, ctx);
+    node.close_all().await;
     drop(pool);
     Some(if race { "race".to_owned() } else { out.join(";") })
 }
@@ -914,6 +937,7 @@ async fn run_resp(w: &[&str], ctx: &mut Ctx) -> Option<String> {
     node.st.lock().unwrap().fixed_reply = Some((kind.to_owned(), resp.clone()));
     let conn = VerifConn::open(node.addr, VerifConnOptions::default()).await.ok()?;
     let r = conn.use_keyspace(&name, cs).await;
+    node.close_all().await;
     let st = node.st.lock().unwrap();
     for t in &st.texts {
         if !spec_valid(&name) {
@@ -962,13 +986,34 @@ pub fn run(case: &str, ctx: &mut Ctx) -> String {
             let rt = tokio::runtime::Builder::new_current_thread().enable_all().build().unwrap();
             rt.block_on(run_resp(&w, ctx)).unwrap_or_else(|| "bad-case".into())
         }
-        Some("pool") if w.len() == 5 => {
-            let rt = tokio::runtime::Builder::new_current_thread().enable_all().build().unwrap();
-            rt.block_on(run_pool(&w, false, ctx)).unwrap_or_else(|| "bad-case".into())
-        }
-        Some("race") if w.len() == 5 => {
-            let rt = tokio::runtime::Builder::new_multi_thread().worker_threads(3).enable_all().build().unwrap();
-            rt.block_on(run_pool(&w, true, ctx)).unwrap_or_else(|| "bad-case".into())
+        Some(kind @ ("pool" | "race")) if w.len() == 5 => {
+            // Watchdog: no step of a script can legitimately take longer than a few seconds (the longest is
+            // the pool's own 5 s USE timeout). If a case does not finish in 45 s it is abandoned, logged to
+            // /verif/work/C20-hangs.log and run once more from scratch; only a second hang is reported.
+            let race = kind == "race";
+            for attempt in 0..2 {
+                let rt = if race {
+                    tokio::runtime::Builder::new_multi_thread().worker_threads(3).enable_all().build().unwrap()
+                } else {
+                    tokio::runtime::Builder::new_current_thread().enable_all().build().unwrap()
+                };
+                let progress = Mutex::new(String::new());
+                let mut local = Ctx::default();
+                let res = rt.block_on(async { tokio::time::timeout(Duration::from_secs(45), run_pool(&w, race, &progress, &mut local)).await });
+                rt.shutdown_timeout(Duration::from_secs(2));
+                ctx.oracle_failures.append(&mut local.oracle_failures);
+                match res {
+                    Ok(r) => return r.unwrap_or_else(|| "bad-case".into()),
+                    Err(_) => {
+                        use std::io::Write;
+                        if let Ok(mut f) = std::fs::OpenOptions::new().create(true).append(true).open("/verif/work/C20-hangs.log") {
+                            let _ = writeln!(f, "attempt {} hung at {}: {}", attempt, progress.lock().unwrap(), case);
+                        }
+                    }
+                }
+            }
+            ctx.fail("the case did not finish within 45 s twice (see /verif/work/C20-hangs.log)");
+            "HANG".into()
         }
         _ => "bad-case".into(),
     }
